@@ -450,7 +450,7 @@ func c06Cases(tier string) int {
 	random := 20000
 	if tier == "thorough" {
 		triples = n * n * n
-		random = 150000
+		random = 1500000
 	}
 	return 1 + pairs + triples + random
 }
@@ -476,7 +476,7 @@ func c06Run(c *Case) {
 		nt := c06Cases(c.Tier) - 1 - n*n
 		random := 20000
 		if c.Tier == "thorough" {
-			random = 150000
+			random = 1500000
 		}
 		ntrip := nt - random
 		j := i - 1 - n*n
